@@ -222,6 +222,37 @@ func init() {
 		}
 		return in.tb.False
 	}
+	verifIntrinsics["verifSetField"] = func(in *Interp, th *Thread, fn *ssa.Function, args []Value) Value {
+		pv := args[0].(IfaceV)
+		path := in.mustStr(args[1], "field path")
+		c := in.cellOf(pv.V, "verifSetField")
+		for _, name := range strings.Split(path, ".") {
+			st, ok := c.Typ.Underlying().(*types.Struct)
+			if !ok {
+				panic(unsupported{"verifSetField: not a struct at " + name})
+			}
+			found := false
+			for i := 0; i < st.NumFields(); i++ {
+				if st.Field(i).Name() == name {
+					c = c.Kids[i]
+					found = true
+					break
+				}
+			}
+			if !found {
+				panic(unsupported{"verifSetField: no field " + name + " in " + c.Typ.String()})
+			}
+		}
+		v := args[2].(IfaceV)
+		if types.IsInterface(c.Typ) {
+			in.storeCell(c, v)
+		} else if v.T == nil {
+			in.storeCell(c, in.zero(c.Typ))
+		} else {
+			in.storeCell(c, v.V)
+		}
+		return nil
+	}
 	verifIntrinsics["verifYield"] = func(in *Interp, th *Thread, fn *ssa.Function, args []Value) Value {
 		in.visible(th, &parkInfo{desc: "yield", enabled: func() bool { return true }, fire: func() {}})
 		return nil
